@@ -373,8 +373,9 @@ func (matrix *SparseReal32Matrix) MagicT() MagicMatrix {
     tmp2 : matrix.tmp1 }
   for k1, value := range matrix.values.values {
     // transform indices so that iterators operate correctly
-    i1, j1 := matrix.ij(k1)
-    k2 := m.index(j1, i1)
+    // (the underlying vector also holds the elements outside of a slice)
+    i1, j1 := k1/matrix.colMax, k1%matrix.colMax
+    k2 := j1*m.colMax + i1
     m.values.values[k2] = value
     m.values.indexInsert(k2)
   }
